@@ -472,6 +472,20 @@ def fixed_families():
              "ev 1 0 RESET", "ev 1 0 SYNC", "ev 1 0 ESTABLISHED", "stop", "start"]
     for i in range(3, len(story) + 1):
         out.append(("story", story[:i]))
+    # the same stories with the groups at the ends of the preference range (0 / 128 / 255, and 253 / 254 / 255)
+    for ren in ({"1": "0", "2": "128", "3": "255"}, {"1": "253", "2": "254", "3": "255"}):
+        def rn(op, ren=ren):
+            w = op.split()
+            if w[0] == "init":
+                return "init " + " ".join(ren[x.split(":")[0]] + ":" + x.split(":")[1] for x in w[1:])
+            if w[0] in ("ev", "lu"):
+                w[1] = ren[w[1]]
+            return " ".join(w)
+        for i in range(3, len(story) + 1):
+            out.append(("story", [rn(o) for o in story[:i]]))
+        # every group but the last one fails in turn: the last (least preferred) one must be started
+        out.append(("story", [rn(o) for o in ["init 1:1 2:1 3:1", "start", "ev 1 0 ERROR_TRANSPORT", "ev 2 0 ERROR_FATAL", "ev 3 0 ERROR_TRANSPORT"]]))
+        out.append(("story", [rn(o) for o in ["init 2:1 3:1", "start", "ev 2 0 ERROR_NO_DATA_AVAIL", "lu 3 0 1", "ev 3 0 ESTABLISHED"]]))
     out.append(("story", ["init 1:2", "start", "lu 1 0 1", "lu 1 1 1", "ev 1 0 ESTABLISHED", "ev 1 1 ESTABLISHED", "stop"]))
     out.append(("story", ["init 1:2 2:2", "start", "ev 1 1 ERROR_NO_DATA_AVAIL", "lu 2 0 1", "lu 2 1 1", "ev 2 1 ESTABLISHED",
                           "ev 2 0 ESTABLISHED", "remove 2", "add 0 2", "lu 0 0 1", "lu 0 1 1", "ev 0 0 SYNC", "ev 0 1 ESTABLISHED"]))
@@ -480,7 +494,8 @@ def fixed_families():
 
 def random_script(rnd):
     ng = rnd.randint(1, 3)
-    prefs = rnd.sample(range(1, 7), ng)
+    # preferences: small values, or the ends of the uint8_t range (0, 255 are legal and the extreme ranks)
+    prefs = rnd.sample(rnd.choice([list(range(1, 7)), list(range(1, 7)), [0, 1, 2, 127, 128, 254, 255], [0, 255, 254]]), ng)
     socks = {p: rnd.randint(1, 2) for p in prefs}
     ops = ["init " + " ".join("%d:%d" % (p, socks[p]) for p in prefs)]
     if rnd.random() < 0.92:
@@ -513,7 +528,7 @@ def random_script(rnd):
         elif r < 0.80:
             ops.append("stop")
         elif r < 0.90:
-            p = rnd.choice([rnd.randint(0, 7), rnd.choice(ps)])
+            p = rnd.choice([rnd.randint(0, 7), rnd.choice(ps), rnd.choice([0, 255, 254])])
             nn = rnd.randint(1, 2)
             ops.append("add %d %d" % (p, nn))
             if p not in socks:
